@@ -57,6 +57,7 @@ PROPS = {
             T("TestC04Deletes", "fleet", 800, 96000, shards=16, qshards=4),
             T("TestC04Config", "fleet", 50000, 8000000, shards=8),
             T("TestC04SweepThenLoad", "fleet", 1500, 160000, shards=16),
+            T("TestC04LoopEnum", "fleet", 1, 1, enum=True, qshards=4, shards=8, procs=4),
         ],
         "assumptions": [
             "sweeper clause for snapshots in the current format (version-1 snapshots carry no deleted flag)",
@@ -70,6 +71,7 @@ PROPS = {
             T("TestC10Remerge", "fleet", 800, 96000, shards=16, qshards=4),
             T("TestC10Loop", "fleet", 240, 12000, shards=16, qshards=4, procs=4),
             T("TestC10Swept", "fleet", 3000, 960000, shards=16, qshards=2),
+            T("TestC10Burst", "fleet", 240, 24000, shards=16, qshards=4, procs=4),
         ],
         "assumptions": [
             "part A (direct driver): re-merging merged content commits nothing; part B (real loops under the scheduler): uploads are counted in a write-free phase of 2N+2 rounds",
@@ -195,6 +197,7 @@ PROPS = {
             T("TestC14Loop", "fleet", 150, 16000, shards=16, qshards=4, procs=4),
             T("TestC14LoopEnum", "fleet", 1, 1, enum=True, qshards=4, shards=8, procs=4),
             T("TestC14Stored", "kv", 6000, 1600000, shards=16, qshards=2),
+            T("TestC14Shadow", "kv", 6000, 1600000, shards=16, qshards=2),
             # invariant part: every value Lightning Stream writes is re-read with the independent reader
             # inside these harnesses (shadow captures/merges/projections, native merges, all format versions)
             T("TestC11Mirror", "kv", 1500, 160000, shards=16),
